@@ -1346,6 +1346,18 @@ func (s *sim) checkAccessors(box *stateBox, where string) {
 		vsetter{"Eth1Data", func(c common.BeaconState) error { return c.SetEth1Data(e3) }, e3},
 		vsetter{"Slot", func(c common.BeaconState) error { return c.SetSlot(slot + 1) }, slot + 1},
 	)
+	// justification bits with the highest of the four bits set (values other than the current one)
+	if cur, err := st.JustificationBits(); err == nil {
+		n := 0
+		for _, b := range []byte{0x0f, 0x0e, 0x09} {
+			if b == cur[0] || n == 2 {
+				continue
+			}
+			n++
+			jb := common.JustificationBits{b}
+			vs = append(vs, vsetter{"JustificationBits", func(c common.BeaconState) error { return c.SetJustificationBits(jb) }, jb})
+		}
+	}
 	// the vote counter counts the votes that are equal in ALL three fields (and the list length is the list's)
 	if ev, ok := fieldOf(raw, "Eth1DataVotes").(phase0.Eth1DataVotes); ok {
 		if vv, err := st.Eth1DataVotes(); err == nil {
